@@ -54,6 +54,11 @@ type Ptr struct {
 	Cell *Value
 	Base []Value // backing array when the pointer addresses an element
 	Idx  int
+	// SymIdx, if non-nil, makes this a pointer to Base[Idx+SymIdx] for a
+	// symbolic in-range index over N scalar elements (Cell is then a dummy
+	// non-nil cell). Loads become ite-chains, stores concretise.
+	SymIdx *Term
+	N      int
 }
 
 // Iface is an interface value. T == nil is the nil interface.
